@@ -70,13 +70,17 @@ def gen_case(rnd):
     leaves = []          # (rule text of X, abstract ids of X or None when a key is missing)
     for li in range(nleaves):
         x = rnd.choice(pool)
-        form = rnd.choice(['lit', 'lit', 'ph', 'pre', 'two', 'missing', 'num'])
+        form = rnd.choice(['lit', 'lit', 'ph', 'pre', 'two', 'missing', 'num', 'ph-empty'])
         if form == 'lit':
             text, ids = spell(rnd, x), x
         elif form == 'ph':
             key = 'k%d' % li
             target[key] = spell(rnd, x)
             text, ids = '%%(%s)s' % key, x
+        elif form == 'ph-empty':
+            key = 'e%d' % li
+            target[key] = ''                     # the placeholder fills in nothing: X is the empty name, which nobody holds
+            text, ids = '%%(%s)s' % key, ()
         elif form == 'pre':
             p = rnd.choice(pool)
             key = 'k%d' % li
